@@ -80,11 +80,12 @@ def grid(tier, rng):
     for price in (None, 0):
         for a in (100, -100, 0):
             pts.append((price, 1, 0, 0, "zero", a, True))
-    if tier == "quick":
-        keep = [p_ for p_ in pts if p_[5] == "closeop"]
-        rest = [p_ for p_ in pts if p_[5] != "closeop"]
-        rng.shuffle(rest)
-        pts = rest[:2400] + keep
+    # the real tree is driven on a sample of the grid (TLC evaluates the whole grid on the
+    # transcription of the search: MC_BtSizing)
+    keep = [p_ for p_ in pts if p_[5] == "closeop"]
+    rest = [p_ for p_ in pts if p_[5] != "closeop"]
+    rng.shuffle(rest)
+    pts = rest[: (2400 if tier == "quick" else 60000)] + keep
     return pts
 
 
